@@ -606,6 +606,52 @@ def disjoint_new_steps(tree, fname):
     return "[" + ", ".join("." + x for x in steps) + "]"
 
 
+# ------------------------------------------------------------------ SimpleShape.__contains_simple: decision table over geometric oracles
+def contains_simple_table(tree, fname):
+    fn = None
+    for n in find_class(tree, "SimpleShape").body:
+        if isinstance(n, ast.FunctionDef) and n.name.endswith("__contains_simple"):
+            fn = n
+    if fn is None:
+        raise Unsupported("SimpleShape.__contains_simple not found")
+    body = body_wo_doc(fn)
+    binds = {}
+    i = 0
+    while i < len(body) and isinstance(body[i], ast.Assign):
+        binds[ast.unparse(body[i].targets[0])] = ast.unparse(body[i].value)
+        i += 1
+    want = {"areaA": "float(other)", "areaB": "float(self)", "jordana": "other.jordans[0]", "jordanb": "self.jordans[0]"}
+    if binds != want:
+        raise Unsupported(f"unexpected bindings in __contains_simple at {where(fn, fname)}: {binds}")
+    atoms = {"areaA < 0": "aNeg", "areaA > 0": "aPos", "areaB > 0": "bPos", "areaB < 0": "bNeg", "0 > areaA": "aNeg", "0 < areaA": "aPos", "0 < areaB": "bPos", "0 > areaB": "bNeg",
+             "not self.box() & other.box()": "boxApart", "self.box() & other.box() is None": "boxApart", "not other.box() & self.box()": "boxApart",
+             "jordana in self": "jaIn", "jordana not in self": "(!jaIn)", "jordanb in other": "jbIn", "jordanb not in other": "(!jbIn)",
+             "areaA > areaB": "aGtB", "areaB < areaA": "aGtB", "~self in ~other": "recC"}
+
+    def bexp(e):
+        src = ast.unparse(e)
+        if src in atoms:
+            return atoms[src]
+        if isinstance(e, ast.Constant) and isinstance(e.value, bool):
+            return "true" if e.value else "false"
+        if isinstance(e, ast.BoolOp):
+            return "(" + (" && " if isinstance(e.op, ast.And) else " || ").join(bexp(v) for v in e.values) + ")"
+        if isinstance(e, ast.UnaryOp) and isinstance(e.op, ast.Not):
+            return f"(!{bexp(e.operand)})"
+        raise Unsupported(f"unsupported condition `{src[:60]}` in __contains_simple at {where(e, fname)}")
+
+    def chain(stmts):
+        if not stmts:
+            raise Unsupported("__contains_simple may fall off its end")
+        st = stmts[0]
+        if isinstance(st, ast.Return):
+            return bexp(st.value)
+        if isinstance(st, ast.If) and not st.orelse and len(st.body) == 1 and isinstance(st.body[0], ast.Return):
+            return f"(if {bexp(st.test)} then {bexp(st.body[0].value)} else {chain(stmts[1:])})"
+        raise Unsupported(f"unsupported statement in __contains_simple at {where(st, fname)}")
+    return chain(body[i:])
+
+
 # ------------------------------------------------------------------ numeric literals
 def literal_consts(srcdir):
     """(name, value-as-Fraction) for the tolerance literals the properties mention"""
@@ -773,6 +819,9 @@ def regenerate(srcdir, gendir):
         out4.append("def containRule : CKind → CKind → Option CRule\n" + tbl + "\n")
         out4.append("/-- `DefinedShape.contains_shape`: answers for `other` Empty / Whole before the dispatch -/\n")
         out4.append(f"def containsEmptyAnswer : Bool := {e}\ndef containsWholeAnswer : Bool := {w}\n")
+        out4.append("/-- `SimpleShape.__contains_simple` (is `other` = A inside `self` = B?) as a decision over its geometric tests: signs of the two areas, boxes apart,\n"
+                    "`jordana in self`, `jordanb in other`, `areaA > areaB`, and the recursive answer for the complements -/\n")
+        out4.append("def containsSimpleTable (aPos aNeg bPos bNeg boxApart jaIn jbIn aGtB recC : Bool) : Bool :=\n  " + contains_simple_table(tree, "shape.py") + "\n")
         out4.append("/-- the statements of `DisjointShape.__new__`, in source order -/\n")
         out4.append("def disjointNewSteps : List NewStep := " + disjoint_new_steps(tree, "shape.py") + "\n")
         out4.append("/-- how `~shape` is built for each kind -/\n")
@@ -794,4 +843,4 @@ def regenerate(srcdir, gendir):
     ch3 = write_if_changed(os.path.join(gendir, "Integrals.lean"), src5) or ch3
     if msgs:
         return False, "; ".join(msgs)
-    return True, f"translated 23 table units and {src3.count(chr(10) + 'def ') + src5.count(chr(10) + 'def ')} arithmetic units from shape.py, plot.py, polygon.py, jordancurve.py, curve.py (changed: {ch1 or ch2 or ch3 or ch4})"
+    return True, f"translated 24 table units and {src3.count(chr(10) + 'def ') + src5.count(chr(10) + 'def ')} arithmetic units from shape.py, plot.py, polygon.py, jordancurve.py, curve.py (changed: {ch1 or ch2 or ch3 or ch4})"
